@@ -28,8 +28,8 @@ inductive Action
   | requestForwardAgent                -- Channel.request_forward_agent: installed unconditionally (no reply wanted)
   | requestPortForward (granted : Bool)  -- Transport.request_port_forward: installed iff the server granted it
   | cancelPortForward                  -- Transport.cancel_port_forward: uninstalled first, then the request is sent
-  | otherRequest (granted : Bool)      -- any other channel request of the client (get_pty, exec_command, invoke_shell,
-                                       -- …), granted or not: installs nothing
+  | otherRequest (granted : Bool)      -- any other request of the client (get_pty, exec_command, invoke_shell, …; an
+                                       -- un-waited global request such as a keepalive), granted or not: installs nothing
   deriving Repr, DecidableEq
 
 /-- what the server sends on its own initiative -/
